@@ -44,10 +44,10 @@ type StateSym struct {
  // It is NeedPacked  
  {{.PackAnalyTable}}
  func (s *StateSym) Action(a int) int {
-	if StatePackOffset[s.Yystate]+a  < 0 {
-		 return ERROR_ACTION
-	}
-	if StatePackOffset[s.Yystate]+a >= len(StackPackCheck) || 
+	// a slot outside the packed array (on either side) holds no entry: the
+	// cell has the default value of its row / column
+	if StatePackOffset[s.Yystate]+a < 0 ||
+		StatePackOffset[s.Yystate]+a >= len(StackPackCheck) || 
 		StackPackCheck[StatePackOffset[s.Yystate]+a] != s.Yystate {
 		 if a > NTERMINALS {
 			 return StackPackGotoDef[a - NTERMINALS - 1]
